@@ -31,6 +31,10 @@ template <typename A = void>
 struct splinetable {
 	unsigned ndim;
 	double* coefficients;
+	double* periods;
+	// NL-1: a possibly-null array read without / with a test
+	double st_nl1_blind(unsigned d) { return periods[d]; }
+	double st_nl1_tested(unsigned d) { return periods ? periods[d] : 0; }
 	void clear() { ndim = 0; coefficients = nullptr; }
 	void st_ts2_unprotected(unsigned n) {
 		ndim = n;
